@@ -262,7 +262,7 @@ def run_one_cut(res, rng, prog, S, k, transport, variant, label):
         if md["mode"] in ("callback", "callback_dropped", "callback_backlog"):
             from vlib import pairs as _p
 
-            _p.wait_until(lambda: END in lg["cb"], 6)
+            _p.wait_until(lambda: END in lg["cb"], 15)
             got = list(lg["cb"])
             res.count("waiters_checked")
             if got.count(END) != 1 or got[-1:] != [END]:
